@@ -3,10 +3,13 @@ P = dict(
     features={"quick": [None, "fixed_point"], "thorough": [None, "fixed_point"]},
     bin="egv_c07", trace="Trace_C07", level="model_checking",
     mc=[dict(module="MC_C07", quick_cfg="MC_C07.cfg", thorough_cfg="MC_C07_thorough.cfg", workers=8),
-        dict(module="MC_C07", quick_cfg="MC_C07_control.cfg", expect_violation=True, coverage=False, workers=8)],
+        dict(module="MC_C07", quick_cfg="MC_C07_control.cfg", expect_violation=True, coverage=False, workers=8),
+        # the whole thick-polyline renderer (EGThick), original and translated side by side, one row per step
+        dict(module="MC_C02p", quick_cfg="MC_C02p.cfg", thorough_cfg="MC_C02p_thorough.cfg", workers=10, thorough_timeout=3000),
+        dict(module="MC_C02p", quick_cfg="MC_C07p_control.cfg", expect_violation=True, coverage=False, workers=6)],
     required_events=["pair"],
     level_text="MC_C07 model-checks translation equivariance of the transcribed line-join intersection pipeline for all line "
-               "pairs on a grid (control: the snapshot's half-away-from-zero rounding is refuted); for every drawable of the catalogue (styled primitives, polylines, images, sub-images, text) and offsets that "
+               "pairs on a grid (control: the snapshot's half-away-from-zero rounding is refuted); MC_C02p runs the complete transcribed thick-polyline renderer (EGThick: extents, joins, segments, scanlines) for a polyline and its translate side by side and checks box and every row (control: the same rounding inside the renderer); for every drawable of the catalogue (styled primitives, polylines, images, sub-images, text) and offsets that "
                "cross the coordinate axes, TLC checks that the pixel map, bounding box, points(), contains() and the text's "
                "next position of the translated object are the shifted originals, that translate_mut equals translate and that "
                "polylines with moved vertices render like translated ones; thick triangles / polylines on a vertex grid",
